@@ -197,7 +197,7 @@ def stream_lex(ctx):
 def _registry():
     S = simple_stream
     return {
-    'C01': {'proofs': 'C01', 'streams': [stream_expr, S('expr-programs', lambda rng, tier: P3.temporaries_programs(rng, 4 if tier != 'thorough' else 30) + P4.higher_order_programs(rng, 60 if tier != 'thorough' else 400) + P4.concat_nested_identity_programs(rng, 60 if tier != 'thorough' else 400), flags='-', shrink=False)],
+    'C01': {'proofs': 'C01', 'streams': [stream_expr, S('expr-programs', lambda rng, tier: P5.cross_type_equality_programs() + P3.temporaries_programs(rng, 4 if tier != 'thorough' else 30) + P4.higher_order_programs(rng, 60 if tier != 'thorough' else 400) + P4.concat_nested_identity_programs(rng, 60 if tier != 'thorough' else 400), flags='-', shrink=False)],
             'rule': 'expr stream: typed random operator trees (all 13 binary and 2 unary operators, calls, lists, records, nil) rendered with minimal, random-extra and whole-expression parentheses; 20% with ill-typed operands; non-trivial = every distinct program',
             'assumptions': ['operand evaluation order is modelled but not part of the statement (calls are to pure functions)', 'hardware floating point is tied to SpecFloat by the f64 stream only']},
     'C02': {'proofs': 'C02', 'streams': [stream_chains],
